@@ -268,6 +268,51 @@ theorem c14_token_callbacks (r : Nat → Bool) (t : Tok) (ops : List Op) :
   · intro i; simp only [step]; split <;> simp_all
   · intro i; simp only [step]; split <;> simp_all
 
+theorem token_run_length (r : Nat → Bool) (t : Tok) (ops : List Op) : (run r t ops).2.length = ops.length := by
+  induction ops generalizing t with
+  | nil => simp [Model.Token.run]
+  | cons op ops ih => simp [Model.Token.run, ih]
+
+/-- **Every answer of the token is a function of what happened before it.**  In any history, what
+an operation returns (the callbacks it invoked, whether it raised, the flag it reported) is what
+that operation does to the token the PREFIX produced — nothing that happens later changes it; an
+`is_cancelled` query answers true iff the token started cancelled or a `cancel()` precedes it; and
+queries are pure: deleting all of them from a history leaves the final token unchanged. -/
+theorem c14_token_history (r : Nat → Bool) (t : Tok) (pre post : List Op) (op : Op) :
+    (run r t (pre ++ op :: post)).2[pre.length]? = some (step r (run r t pre).1 op).2
+    ∧ (step r (run r t pre).1 .query).2.answer = some (t.cancelled || decide (Op.cancel ∈ pre))
+    ∧ (run r t ((pre ++ op :: post).filter (· ≠ .query))).1 = (run r t (pre ++ op :: post)).1 := by
+  refine ⟨?_, ?_, ?_⟩
+  · rw [run_append]
+    simp only
+    rw [List.getElem?_append_right (by simp [token_run_length])]
+    simp [token_run_length, Model.Token.run]
+  · have := run_cancelled r t pre
+    simp only [step]
+    cases h : (run r t pre).1.cancelled
+    · have h' : ¬ (t.cancelled = true ∨ Op.cancel ∈ pre) := by rw [← this]; simp [h]
+      simp only [not_or] at h'
+      simp [h']
+    · have h' := this.mp h
+      rcases h' with h' | h' <;> simp [h']
+  · generalize pre ++ op :: post = ops
+    have hrun : ∀ (t : Tok) (o : Op) (ops : List Op),
+        (Model.Token.run r t (o :: ops)).1 = (Model.Token.run r (step r t o).1 ops).1 := by
+      intro t o ops; simp [Model.Token.run]
+    induction ops generalizing t with
+    | nil => rfl
+    | cons o ops ih =>
+      cases o with
+      | query =>
+        have hf : (Op.query :: ops).filter (· ≠ .query) = ops.filter (· ≠ .query) := by simp
+        rw [hf, hrun]; exact ih t
+      | cancel =>
+        have hf : (Op.cancel :: ops).filter (· ≠ .query) = Op.cancel :: ops.filter (· ≠ .query) := by simp
+        rw [hf, hrun, hrun]; exact ih _
+      | add i =>
+        have hf : (Op.add i :: ops).filter (· ≠ .query) = Op.add i :: ops.filter (· ≠ .query) := by simp
+        rw [hf, hrun, hrun]; exact ih _
+
 example : (run (fun i => i == 2) {} [.add 1, .query, .cancel, .add 2, .cancel, .query]).2
     = [{}, { answer := some false }, { invoked := [1] }, { invoked := [2], raised := true },
        { invoked := [1, 2] }, { answer := some true }] := by decide
